@@ -313,8 +313,8 @@ func fingerprintFiltered(f *ssa.Function, keep func(string) bool) []string {
 
 func c04AnchoringAndConsumption(r *an.Run) {
 	m := fn(r, engine, "SliceDotsMatcher.Match")
-	ms := fn(r, engine, "matchSections")
-	mp := fn(r, engine, "matchPrefix")
+	ms := funcAnywhere(r, engine, "matchSections")
+	mp := funcAnywhere(r, engine, "matchPrefix")
 	if m == nil || ms == nil || mp == nil {
 		return
 	}
@@ -632,7 +632,7 @@ func c04Reproduction(r *an.Run) {
 		return
 	}
 	// lookups: one per element of r.Dots, through dotAssoc
-	ils := findIndexLoops(f, isLenOfPath("r.Dots"))
+	ils := findIndexLoopsGroup(f, isLenOfPathIn(f, "r.Dots"))
 	if r.Check(len(ils) == 1, short(f)+"|dots-loop", f.Pos(), "one loop over all of r.Dots") {
 		il := ils[0]
 		var look ssa.CallInstruction
@@ -645,16 +645,21 @@ func c04Reproduction(r *an.Run) {
 			msg := il.CoversAll(look, nil)
 			r.Check(msg == "" && il.Start == 0 && il.Step == 1, short(f)+"|lookup-covers-all", look.Pos(), "the run of every '...' of the list is looked up %s", msg)
 			lk, ok := look.Common().Args[1].(*ssa.Lookup)
-			good := ok && an.Path(lk.X) == "r.dotAssoc" && elemOf(lk.Index, "r.Dots", il.Index)
+			good := ok && an.PathIn(lk.X, f) == "r.dotAssoc" && elemOfIn(f, lk.Index, "r.Dots", il.Index)
 			r.Check(good, short(f)+"|through-dotAssoc", look.Pos(), "the run looked up is the one associated with this '...' by r.dotAssoc[r.Dots[i]]")
 		}
 	}
 	// appended whole, after section i, under the bound test only
-	sec := findIndexLoops(f, isLenOfPath("r.Sections"))
+	sec := findIndexLoopsGroup(f, isLenOfPathIn(f, "r.Sections"))
 	if !r.Check(len(sec) == 1, short(f)+"|sections-loop", f.Pos(), "one loop over all sections") {
 		return
 	}
 	sl := sec[0]
+	anchor := f
+	f = sl.Loop.Header.Parent() // the sections loop may live in a helper of Replace
+	if f != anchor {
+		r.Check(helperFailurePropagates(anchor, f), short(anchor)+"|helper-failure-propagates", anchor.Pos(), "a failure of %s makes Replace fail", short(f))
+	}
 	var run *ssa.Call
 	for _, c := range an.CallsTo(f, "builtin:append") {
 		call := c.(*ssa.Call)
@@ -676,7 +681,7 @@ func c04Reproduction(r *an.Run) {
 	}
 	// what is appended is what lookupSliceDotsSkipped returned for this '...' (possibly kept in a local table in between)
 	whole := false
-	for v := range an.BackSlice(run.Call.Args[1], an.SliceOpts{ThroughCalls: true, ThroughMemory: true}) {
+	for v := range sliceAcross(run.Call.Args[1]) {
 		if ex, ok := v.(*ssa.Extract); ok && ex.Index == 0 {
 			if c, ok := ex.Tuple.(*ssa.Call); ok && an.StaticCallee(c) == r.P.Func(engine, "lookupSliceDotsSkipped") {
 				whole = true
@@ -896,7 +901,9 @@ func c04ImplicitDots(r *an.Run) {
 			}
 		}
 		r.Check(mid, short(f)+"|pattern-in-between", f.Pos(), "the pattern's statements are placed between the two implicit elisions, whole")
-		fps = append(fps, fingerprintFiltered(f, func(s string) bool { return !strings.Contains(s, "compile") && !strings.Contains(s, "Matcher") && !strings.Contains(s, "Replacer") }))
+		fps = append(fps, fingerprintFiltered(f, func(s string) bool {
+			return !strings.Contains(s, "compile") && !strings.Contains(s, "Matcher") && !strings.Contains(s, "Replacer")
+		}))
 	}
 	if len(fps) == 2 {
 		r.Check(strings.Join(fps[0], "\n") == strings.Join(fps[1], "\n"), "compilePGoStmtList|siblings", 0, "matcher and replacer side build the same wrapped list%s", firstDiff(fps[0], fps[1]))
